@@ -9,6 +9,32 @@ os.environ.setdefault("PYTHONDONTWRITEBYTECODE", "1")
 import seed_matrix as sm
 
 want = set(sys.argv[1:])
+if "--jobs" in sys.argv or True:
+    # parallel: scratch copies instead of git worktrees
+    from concurrent.futures import ProcessPoolExecutor
+    want.discard("--jobs")
+    base = sm.run_all("/repo")
+    work = []
+    for d in sorted(glob.glob("/tmp/neut_C*/NEUT_OUT/N[0-9].diff") + glob.glob("/verif/selftest/neutral/*.diff")):
+        sid = (d.split("/")[2].split("_")[1] + "-" + os.path.basename(d)[:2]) if d.startswith("/tmp/") else os.path.basename(d)[:-5]
+        if want and sid not in want:
+            continue
+        work.append((sid, d, base))
+    alarms = 0
+    seen = set()
+    with ProcessPoolExecutor(max_workers=14) as pool:
+        for sid, m in pool.map(sm.judge_patch, work):
+            if sid in seen:
+                continue
+            seen.add(sid)
+            if m.get("detected_by"):
+                alarms += 1
+                for k, v in sorted(m["reports"].items()):
+                    print(f"{sid:8s} ALARM {k}: {v[0][:230]}")
+            else:
+                print(f"{sid:8s} {'silent' if m['applied'] in ('clean', 'fuzzy') else m['applied']}")
+    print(f"{alarms} of {len(seen)} neutral refactorings raise an alarm")
+    sys.exit(0)
 base = sm.run_all("/repo")
 tot = alarms = 0
 for d in sorted(glob.glob("/tmp/neut_C*/NEUT_OUT/N[0-9].diff")):
